@@ -38,4 +38,23 @@ pub open spec fn cfg_in_range(cp: ConfiguredPlugin) -> bool {
       && r.params_view().allow_self_route_hints == allow_self_route_hints
       && r.params_view().local_pubkey == info.id
       && r.params_view().payment_provider == payment_provider
+//@ ensures#manager_reads_heights_from_the_started_watcher_and_uses_the_one_store [C04,C20,C08,C09]
+      r.params_view().block_provider == block_watcher && r.params_view().store == store
+      && r.params_view().notification_service == notification_service
+//@ end
+
+//@ fn main::main#watcher
+//@ implicit [C06,C20]
+//@ ensures#the_watcher_handed_on_has_been_started [C20,C04]
+//    the manager and the block_added hook get a watcher whose height cell was initialised from the
+//    node and whose poller runs -- not a fresh one
+      r is Ok ==> (r->Ok_0.0).started@
+//@ end
+
+//@ fn main::main#state
+//@ implicit [C06,C20]
+//@ ensures#hooks_and_manager_share_one_watcher_and_one_manager [C20,C04,C06]
+//    the block_added hook updates the very watcher the manager reads heights from, and htlc_accepted
+//    reaches the very manager main() configured (slices main#manager / main#watcher)
+      state.watcher_view() == block_watcher && state.manager_view() == htlc_manager
 //@ end
